@@ -1,6 +1,6 @@
 (* Correspondence checker for C06 (convert_units). Column values: the cells' float-bit tokens. *)
 From PdV Require Export Common.
-From PdV.Model Require Export Convert.
+From PdV.Model Require Export Convert Normalize.
 
 Definition vals := list N.
 Definition vals_eqb (a b : vals) : bool := list_eqb N.eqb a b.
@@ -38,3 +38,26 @@ Definition check (c : case) : bool :=
   | inl r => N.eqb code 0 && list_eqb col_eqb r res
   | inr e => N.eqb code (err_code e)
   end.
+
+(* ---- the stream function normalized_table_generator (pdtable/utils.py) ----
+   stream: an other block, the table [name] (dispatched to p), an other block, the same columns as
+   table "other" (not dispatched).  Observed: number of blocks delivered, error code, the columns of
+   the first and of the second delivered table. *)
+Definition scase : Type := str * list (column vals) * disp * conv_tab * N * nat * list (column vals) * list (column vals).
+
+Definition s_other : str := [111; 116; 104; 101; 114]%N.
+Definition tab_cols (b : sblock vals) : list (column vals) := match b with SBTable _ c => c | SBOther _ => [] end.
+
+Definition check_stream (c : scase) : bool :=
+  let '(name, cols, p, tab, code, n_out, res1, res2) := c in
+  let td := fun n => if str_eqb n name then Some (to_dispatcher p) else None in
+  let '(out, err) := normalize (lookup tab) td [SBOther 1; SBTable name cols; SBOther 2; SBTable s_other cols] in
+  Nat.eqb (length out) n_out &&
+  match err with
+  | None => N.eqb code 0 && list_eqb col_eqb (tab_cols (nth 1 out (SBOther 0))) res1
+            && list_eqb col_eqb (tab_cols (nth 3 out (SBOther 0))) res2
+  | Some e => N.eqb code (err_code e)
+  end.
+
+Definition case2 : Type := case + scase.
+Definition check2 (c : case2) : bool := match c with inl a => check a | inr s => check_stream s end.
